@@ -43,6 +43,12 @@ P = {
          "the 4 distinct scalings, lifted by forallb_forall; the bound is in the statement). Depends on the kernel float/int63 primitives only. "
          "Implementation compared bit-exactly (display, bounds, transmitted raw) on every description.",
          "Python round()/int() semantics are modelled (exact Z arithmetic on mantissa/exponent + one IEEE division) and validated against CPython on every run."),
+ "C18": ("Theorems C18_edit (for every 48-slot day, state and half-hour aligned times the result has 48 slots and differs from the day exactly on "
+         "[slot(start), slot(end)] - 00:00 end = last slot - where it equals the requested state; otherwise None), C18_reject (invalid state or "
+         "time never edits), C18_decode_encode / C18_encode_decode (bitmap codec is a bijection between 7x48 bits and 42 bytes, both directions), "
+         "C18_commit (payload = 01 idx switch param ++ bitmap, 46 bytes) - closed; implementation: exhaustive 48x48x4 edits, invalid inputs, and "
+         "real SchedulesResponse -> EcoMAX -> Schedule edits -> commit() frames compared with the model.",
+         "datetime.strptime parsing of HH:MM is CPython's; weekday mapping is checked by correspondence through the real device."),
  "C14": ("Theorems C14_noise (documented outcomes, progress, bounded wait <= 1000 bytes after the delimiter, tiling, iteration ends with the "
          "broken-stream signal) and C14_resync_clean (closed); the full resynchronisation clause is refuted in Coq (C14_resync_refuted) and "
          "recorded as known finding D16; implementation checked for P14 and for the resync bound on every generated run.",
